@@ -105,9 +105,9 @@ func runCheck(repo, verif, prop, tier string, verbose bool) int {
 	genS := time.Since(t0).Seconds() - loadS
 	tmp, _ := os.MkdirTemp("", "gvc-"+prop)
 	defer os.RemoveAll(tmp)
-	timeout := 20
+	timeout := 30
 	if tier == "thorough" {
-		timeout = 60
+		timeout = 90
 	}
 	tD := time.Now()
 	discharge(res.obs, solveOpts{timeoutS: timeout, dir: tmp, jobs: 16, thorough: tier == "thorough"})
@@ -149,7 +149,11 @@ func runCheck(repo, verif, prop, tier string, verbose bool) int {
 				vacuous = true
 				// the contracts assumed along the way contradict each other on this path: the code no longer fits
 				// them (or a contract is wrong). Either way the property is not decided: reported, never a pass.
-				vacuityProblems = append(vacuityProblems, fmt.Sprintf("vacuity: %s is unreachable under the assumed contracts (%s)", o.Name, o.Backend))
+				if strings.HasPrefix(o.Clause, "reachable with: ") {
+					vacuityProblems = append(vacuityProblems, fmt.Sprintf("cover: %s: the instruction at %s is never reached in a state where %s (%s)", o.Name, o.Src, strings.TrimPrefix(o.Clause, "reachable with: "), o.Backend))
+				} else {
+					vacuityProblems = append(vacuityProblems, fmt.Sprintf("vacuity: %s is unreachable under the assumed contracts (%s)", o.Name, o.Backend))
+				}
 			}
 			continue
 		}
